@@ -391,4 +391,27 @@ PROPS = {
             {"name": "formats", "test": "TestFormats", "checks": {Q: 480, T: 8000}, "shards": {Q: 16, T: 16}, "timeout": {Q: 500, T: 3000}, "shrinktime": "60s"},
         ],
     },
+    "C20": {
+        "pkg": "c20", "bin": True,
+        "technique": "rapid trees x glob pattern sets against a reference glob matcher (differential), and rapid file-operation "
+                     "histories against a running watcher with an invariant over the log its task appends to",
+        "level_text": "select: trees (<= 3 levels, <= 12 files, dot-files) and 1..3 include / 0..2 exclude patterns over the grammar "
+                      "literal | * | ? inside a segment | ** as a whole segment; the set of paths in the watcher's start-up debug "
+                      "lines must equal {p : some include matches p and no exclude matches p} by an independent segment-wise matcher. "
+                      "events: the watcher runs while the checker performs 1..6 operations (write, chmod, remove, rename) on observed, "
+                      "excluded and unrelated files; every subscribed operation on an observed path must append a line with that "
+                      "EventName and EventPath within 4 s (also the 2nd..6th), no line may carry an unsubscribed event or an "
+                      "unobserved path.",
+        "level_note": "Depends on the kernel's inotify delivery: extra lines of a subscribed type (a remove is preceded by an attribute "
+                      "change) are accepted; a path selected only through 'X/**' matching X itself is accepted either way; a late event "
+                      "is re-tried once with 12 s bounds.",
+        "rule": "rapid cases. Non-trivial (select) = at least one path selected, one removed by an exclude, and a ** or ? in a pattern; "
+                "(events) = at least 2 operations on observed paths of which one is unsubscribed. Distinct = canonical JSON.",
+        "assumptions": ["patterns have no leading ./, no //, no trailing / (doublestar's behaviour there is undocumented)",
+                        "at most 16 watcher processes at a time (inotify instance limit 128 per user)"],
+        "parts": [
+            {"name": "select", "test": "TestSelect", "checks": {Q: 1600, T: 32000}, "shards": {Q: 8, T: 16}, "timeout": {Q: 500, T: 3000}, "shrinktime": "40s"},
+            {"name": "events", "test": "TestEvents", "checks": {Q: 32, T: 480}, "shards": {Q: 8, T: 16}, "timeout": {Q: 900, T: 3600}, "shrinktime": "30s"},
+        ],
+    },
 }
